@@ -432,6 +432,205 @@ func recvTypeName(fd *ast.FuncDecl) (string, string) {
 	return "", ""
 }
 
+// ---------------------------------------------------------------------------------------------------------------------
+// the goroutine a constructor starts (the janitor) and the finalizer it registers
+
+// captured: identifiers used in the function literal that are declared in the enclosing function (in order of first use)
+func captured(fl *ast.FuncLit, outer map[string]bool) []string {
+	var out []string
+	seen := map[string]bool{}
+	own := map[string]bool{}
+	ast.Inspect(fl.Body, func(n ast.Node) bool {
+		switch x := n.(type) {
+		case *ast.AssignStmt:
+			if x.Tok == token.DEFINE {
+				for _, l := range x.Lhs {
+					if id, ok := l.(*ast.Ident); ok {
+						own[id.Name] = true
+					}
+				}
+			}
+		case *ast.SelectorExpr:
+			// only the operand can be a variable
+			ast.Inspect(x.X, func(m ast.Node) bool {
+				if id, ok := m.(*ast.Ident); ok && outer[id.Name] && !own[id.Name] && !seen[id.Name] {
+					seen[id.Name] = true
+					out = append(out, id.Name)
+				}
+				return true
+			})
+			return false
+		case *ast.Ident:
+			if outer[x.Name] && !own[x.Name] && !seen[x.Name] {
+				seen[x.Name] = true
+				out = append(out, x.Name)
+			}
+		}
+		return true
+	})
+	return out
+}
+
+// goLoop prints `if guard { go func() { x := time.NewTicker(iv); defer x.Stop(); for { select { case <-ch: body … } } }() }`
+func goLoop(ifs *ast.IfStmt, gs *ast.GoStmt, obj string, outer map[string]bool) string {
+	fl := gs.Call.Fun.(*ast.FuncLit)
+	if len(gs.Call.Args) != 0 || (fl.Type.Params != nil && len(fl.Type.Params.List) != 0) {
+		die("%s: goroutine with arguments outside the subset", pos(gs))
+	}
+	t := &tr{recv: obj}
+	t.push()
+	for n := range outer {
+		if n != obj {
+			t.declare(n)
+		}
+	}
+	if ifs.Init != nil || ifs.Else != nil {
+		die("%s: guard of the goroutine outside the subset", pos(ifs))
+	}
+	guard := t.expr(ifs.Cond)
+	b := fl.Body.List
+	if len(b) != 3 {
+		die("%s: goroutine body outside the subset (want: ticker := time.NewTicker(d); defer ticker.Stop(); for { select {…} })", pos(fl))
+	}
+	as, ok := b[0].(*ast.AssignStmt)
+	if !ok || as.Tok != token.DEFINE || len(as.Lhs) != 1 || len(as.Rhs) != 1 {
+		die("%s: goroutine statement 1 outside the subset", pos(b[0]))
+	}
+	tick := as.Lhs[0].(*ast.Ident).Name
+	call, ok := as.Rhs[0].(*ast.CallExpr)
+	if !ok || typeString(call.Fun) != "time.NewTicker" || len(call.Args) != 1 {
+		die("%s: ticker construction outside the subset (time.NewTicker only)", pos(b[0]))
+	}
+	interval := t.expr(call.Args[0])
+	ds, ok := b[1].(*ast.DeferStmt)
+	if !ok || typeString(ds.Call.Fun) != tick+".Stop" || len(ds.Call.Args) != 0 {
+		die("%s: goroutine statement 2 outside the subset (defer %s.Stop())", pos(b[1]), tick)
+	}
+	fs, ok := b[2].(*ast.ForStmt)
+	if !ok || fs.Init != nil || fs.Cond != nil || fs.Post != nil || len(fs.Body.List) != 1 {
+		die("%s: goroutine statement 3 outside the subset (for { select {…} })", pos(b[2]))
+	}
+	sel, ok := fs.Body.List[0].(*ast.SelectStmt)
+	if !ok {
+		die("%s: loop body outside the subset (select only)", pos(fs.Body))
+	}
+	t.declare(tick)
+	var cases []string
+	for _, cc := range sel.Body.List {
+		c := cc.(*ast.CommClause)
+		es, ok := c.Comm.(*ast.ExprStmt)
+		if !ok {
+			die("%s: select clause outside the subset (plain receive only)", pos(c))
+		}
+		ue, ok := es.X.(*ast.UnaryExpr)
+		if !ok || ue.Op != token.ARROW {
+			die("%s: select clause outside the subset (plain receive only)", pos(c))
+		}
+		var ch string
+		if f, ok := t.isRecvField(ue.X); ok {
+			ch = "(.field " + str(f) + ")"
+		} else if typeString(ue.X) == tick+".C" {
+			ch = "(.tickerC " + str(tick) + ")"
+		} else {
+			die("%s: channel %s outside the subset", pos(c), typeString(ue.X))
+		}
+		cases = append(cases, "("+ch+", "+t.block(c.Body, true)+")")
+	}
+	var caps []string
+	for _, c := range captured(fl, outer) {
+		caps = append(caps, str(c))
+	}
+	return "{ guard := " + guard + ", ticker := " + str(tick) + ", interval := " + interval + ", deferStop := true,\n    cases := " + list(cases) + ",\n    captures := " + list(caps) + " }"
+}
+
+// finalizer prints `runtime.SetFinalizer(x, func(m *T) { close(m.f) })` as (x, f)
+func finalizer(call *ast.CallExpr) string {
+	if len(call.Args) != 2 {
+		die("%s: SetFinalizer outside the subset", pos(call))
+	}
+	target, ok := call.Args[0].(*ast.Ident)
+	fl, ok2 := call.Args[1].(*ast.FuncLit)
+	if !ok || !ok2 || len(fl.Type.Params.List) != 1 || len(fl.Type.Params.List[0].Names) != 1 || len(fl.Body.List) != 1 {
+		die("%s: SetFinalizer outside the subset", pos(call))
+	}
+	pn := fl.Type.Params.List[0].Names[0].Name
+	es, ok := fl.Body.List[0].(*ast.ExprStmt)
+	if !ok {
+		die("%s: finalizer body outside the subset (close(m.f))", pos(fl))
+	}
+	cl, ok := es.X.(*ast.CallExpr)
+	if !ok || typeString(cl.Fun) != "close" || len(cl.Args) != 1 {
+		die("%s: finalizer body outside the subset (close(m.f))", pos(fl))
+	}
+	se, ok := cl.Args[0].(*ast.SelectorExpr)
+	if !ok || typeString(se.X) != pn {
+		die("%s: finalizer body outside the subset (close(m.f))", pos(fl))
+	}
+	return "{ target := " + str(target.Name) + ", closes := " + str(se.Sel.Name) + " }"
+}
+
+// ctorGoroutine: the constructor `name` of `file`: its goroutine and its finalizer
+func ctorGoroutine(b *strings.Builder, f *ast.File, file, name, prefix string) {
+	for _, d := range f.Decls {
+		fd, ok := d.(*ast.FuncDecl)
+		if !ok || fd.Recv != nil || fd.Name.Name != name {
+			continue
+		}
+		outer := map[string]bool{}
+		if fd.Type.Params != nil {
+			for _, p := range fd.Type.Params.List {
+				for _, n := range p.Names {
+					outer[n.Name] = true
+				}
+			}
+		}
+		obj, wrapper := "", ""
+		var loops, fins []string
+		for _, s := range fd.Body.List {
+			switch x := s.(type) {
+			case *ast.AssignStmt:
+				if x.Tok == token.DEFINE {
+					for _, l := range x.Lhs {
+						if id, ok := l.(*ast.Ident); ok {
+							outer[id.Name] = true
+							// the object is the first variable defined as &T{…}; the wrapper the second
+							if ue, ok := x.Rhs[0].(*ast.UnaryExpr); ok && ue.Op == token.AND {
+								if obj == "" {
+									obj = id.Name
+								} else if wrapper == "" {
+									wrapper = id.Name
+								}
+							}
+						}
+					}
+				}
+			case *ast.IfStmt:
+				for _, bs := range x.Body.List {
+					if gs, ok := bs.(*ast.GoStmt); ok {
+						if _, ok := gs.Call.Fun.(*ast.FuncLit); !ok || len(x.Body.List) != 1 || obj == "" {
+							die("%s: go statement outside the subset", pos(gs))
+						}
+						loops = append(loops, goLoop(x, gs, obj, outer))
+					}
+				}
+			case *ast.GoStmt:
+				die("%s: unguarded go statement outside the subset", pos(x))
+			case *ast.ExprStmt:
+				if c, ok := x.X.(*ast.CallExpr); ok && typeString(c.Fun) == "runtime.SetFinalizer" {
+					fins = append(fins, finalizer(c))
+				}
+			}
+		}
+		if len(loops) != 1 || len(fins) != 1 {
+			die("%s: %s: want exactly one guarded goroutine and one finalizer, found %d and %d", file, name, len(loops), len(fins))
+		}
+		fmt.Fprintf(b, "/-- the goroutine `%s` starts (%s): the janitor -/\ndef %s_janitor : GoLoop :=\n  %s\n\n", name, file, prefix, loops[0])
+		fmt.Fprintf(b, "/-- the finalizer `%s` registers -/\ndef %s_finalizer : Finalizer :=\n  %s\n\n", name, prefix, fins[0])
+		return
+	}
+	die("%s: constructor %s not found", file, name)
+}
+
 func main() {
 	if len(os.Args) != 3 {
 		die("usage: go2deep <repo> <out.lean>")
@@ -479,6 +678,8 @@ func main() {
 			fmt.Fprintf(&b, "theorem %s_lookup_%s : List.lookup %s %s = some %s_%s := by rfl\n", spec.recvType, n, str(n), spec.recvType, spec.recvType, n)
 		}
 		b.WriteString("\n")
+		ctorGoroutine(&b, f, spec.file, "new"+strings.ToUpper(spec.recvType[:1])+spec.recvType[1:], spec.recvType)
+		simpNames = append(simpNames, fmt.Sprintf("Gen.Deep.%s_janitor Gen.Deep.%s_finalizer", spec.recvType, spec.recvType))
 	}
 	b.WriteString("end Gen.Deep\n")
 	// companion file: the generated definitions and lookup lemmas join the simp set used for symbolic evaluation
